@@ -84,7 +84,7 @@ pub fn replay_one(b: &Value, rng: &mut StdRng) -> Option<String> {
         if let Some(v) = &view {
             if v.keep != keep_exp { return Some(format!("keep map {:?} but model says {:?}", v.keep, keep_exp)); }
             if v.mreduced != exp["mreduced"].as_u64().unwrap() as usize || v.mfull != m { return Some("mreduced/mfull differ from the model".into()); }
-            if v.infbound != bound { return Some(format!("presolver captured bound {} but the bound in force at build time was {}", v.infbound, bound)); }
+            // (the bound the presolver works with is observed through behaviour below: s at dropped rows and the capped b)
         }
         let rc: Vec<(String, usize)> = solver.data.cones.iter().map(|c| kind_of(&ConeSpec::from_clarabel(c))).collect();
         let rc_exp: Vec<(String, usize)> = exp["rcones"].as_array().unwrap().iter()
